@@ -18,12 +18,12 @@ import (
 )
 
 type c08Case struct {
-	Book []byte   `json:"book"` // raw bytes (may be invalid UTF-8)
-	Log  []byte   `json:"log"`
-	Args []string `json:"args"` // @BOOK@ / @LOG@ / @DIR@ / @MISSING@ are replaced by paths
+	Book []byte            `json:"book"` // raw bytes (may be invalid UTF-8)
+	Log  []byte            `json:"log"`
+	Args []string          `json:"args"` // @BOOK@ / @LOG@ / @DIR@ / @MISSING@ are replaced by paths
 	Env  map[string]string `json:"env,omitempty"`
-	Muts []string `json:"muts"`
-	Bin  bool     `json:"bin"`
+	Muts []string          `json:"muts"`
+	Bin  bool              `json:"bin"`
 }
 
 // watchdog: a single in-process run that does not come back within the limit
@@ -153,7 +153,7 @@ func c08CmdWord(args []string) string {
 // ---------------------------------------------------------------------------
 // generator
 
-var c08BadNumbers = []string{"NaN", "nan", "Inf", "-Inf", "+inf", "infinity", "1e400", "-1e400", "1e308", "1e-400", "0x1p-2", "0x10", "1_000", "1,5", "1.2.3", "--1", "", "e", ".", "-", "+", "１２", "9999999999999999999999999999999999999999", "0.00000000000000000000000000000000000000001", "1e", "1e+", "0e0", "-0"}
+var c08BadNumbers = []string{"NaN", "nan", "Inf", "-Inf", "+inf", "infinity", "1e400", "-1e400", "1e308", "1e-400", "0x1p-2", "0x10", "1_000", "1,5", "1.2.3", "--1", "", "e", ".", "-", "+", "１２", "9999999999999999999999999999999999999999", "0.00000000000000000000000000000000000000001", "0.0000000000000004", "0.0000025000000000", "9007199254740.995", "1e", "1e+", "0e0", "-0"}
 
 var c08Dates = []string{"2021/01/01", "2021/01/10", "2021/13/45", "0000/00/00", "9999/12/31", "2021-01-01", "01/02/2021", "today", "yesterday", "last7", "last30", "tomorrow", "next week", "last monday", "3 days ago", "in 5 minutes", "december", "", " ", "garbage", "\x01", "2021/01/01 12:00", "-1", "1e9", "last 99999999999999999999 years", "🙂", strings.Repeat("9", 400)}
 
